@@ -6,7 +6,13 @@
    Monitor (the oracle, kept by the harness from the public API calls only): pending[id], due[id].
      at every callback run:  the event is pending, the reading that released it is >= its due time, and no other pending
      event has an earlier due time;  afterwards it is pending again iff it repeats and returned true, due = reading + interval;
-     after clear() nothing is pending, so any run is a violation. */
+     after clear() nothing is pending, so any run is a violation.
+   MODE 0: the loop runs from the freshly scheduled queue for STEPS readings/sleeps (bounded history).
+   MODE 1: inductive step.  Invariant Inv: the queue's vector is heap-ordered by due time and holds exactly the monitor's
+     pending events (id, due, interval, repeat).  The NEV schedule calls at symbolic readings produce every Inv state of
+     NEV events (for <= 3 elements every heap arrangement is reachable by pushes); then ONE pass of the loop (one clock
+     reading) or one clear() must obey the run rules above and re-establish Inv.  By induction the rules hold for
+     histories of any length over <= NEV pending events. */
 #include "vf_h.h"
 #include "c31.c"
 #ifndef NEV
@@ -17,6 +23,18 @@
 #endif
 #ifndef CLEAR
 #define CLEAR 1
+#endif
+#ifndef MODE
+#define MODE 0
+#endif
+#if MODE == 1
+#undef STEPS
+#define STEPS 1
+#undef CLEAR
+#define CLEAR 0
+#endif
+#ifndef OP
+#define OP 0
 #endif
 #define MS 1000000LL
 static struct S_class_2eFIX8_3a_3aTimer the_timer; static struct S_struct_2eMon the_mon;
@@ -68,10 +86,25 @@ uint32_t x_pthread_spin_unlock(uint32_t *l) { *l = 0; return 0; }
 uint8_t *x__Znwm(uint64_t n)
 {
   uint8_t *p = 0;
+  if (in_run) { __CPROVER_assert(0, "C31: the queue's vector never grows while the loop runs (an event is re-queued only after it was popped)"); __CPROVER_assume(0); }
   for (uint64_t c = 1; c <= 8; c++) if (n == c * EVSZ) p = malloc(c * EVSZ);
   __CPROVER_assert(p != 0, "C31: allocation size within the modelled range (<= 8 events)");
   __CPROVER_assume(p != 0);
   return p;
+}
+/* Inv: queue == monitor's pending set, heap-ordered */
+static void check_inv(const char *unused)
+{
+  uint64_t n = vf_tm_pending(&the_timer); int np = 0; for (int j = 0; j < NEV; j++) np += pending[j];
+  VF_ASSERT(n == (uint64_t)np, "C31: the queue holds exactly as many events as are pending");
+  int seen[3] = { 0, 0, 0 }; int64_t t[3] = { 0, 0, 0 };
+  for (int i = 0; i < NEV; i++) if ((uint64_t)i < n) {
+    uint64_t d = 0; uint32_t ms = 0; uint8_t rep = 0; int id = (int)vf_tm_event(&the_timer, (uint64_t)i, &d, &ms, &rep);
+    VF_ASSERT(id >= 0 && id < NEV && pending[id] && !seen[id], "C31: every queued event is a distinct pending event");
+    if (id >= 0 && id < NEV) { seen[id] = 1; VF_ASSERT((int64_t)d == due[id] && ms == cx_ms[id] && (rep & 1) == cx_rep[id], "C31: a queued event carries its due time, interval and repeat flag"); }
+    t[i] = (int64_t)d;
+    if (i > 0) VF_ASSERT(t[(i - 1) / 2] <= t[i], "C31: the queue is heap-ordered by due time");
+  }
 }
 int main(void)
 {
@@ -86,9 +119,18 @@ int main(void)
     pending[i] = 1; due[i] = g_now + (int64_t)ms * MS;       /* due = the reading schedule() took + delay */
   }
   VF_ASSERT(vf_tm_pending(&the_timer) == NEV, "C31: every scheduled event is queued");
+  check_inv(0);
+#if MODE == 1 && OP == 1
+  uint64_t k = vf_tm_clear(&the_timer);
+  VF_ASSERT(k == NEV, "C31: clear() returns the number of events that were waiting");
+  for (int j = 0; j < NEV; j++) pending[j] = 0;
+  cleared = 1;
+#else
   in_run = 1;
   vf_tm_run(&the_timer);
   in_run = 0;
+#endif
+  check_inv(0);
   cx_nruns = nruns;
   VF_ASSERT(!__vf_exc_pending, "C31: the event loop does not throw");
   VF_ASSERT(!bad_early, "C31: no callback runs at a clock reading earlier than its due time");
@@ -98,7 +140,18 @@ int main(void)
   VF_ASSERT(!cx_bad, "C31: clear() returns the number of events that were waiting");
   int np = 0; for (int j = 0; j < NEV; j++) np += pending[j];
   VF_ASSERT(vf_tm_pending(&the_timer) == (uint64_t)np, "C31: the queue holds exactly the pending events");
+#if MODE == 1
+#if OP == 1
+  VF_REACH();
+#else
+  if (nruns == 1 && pending[cx_runid[0]]) VF_REACH();      /* ran and re-armed */
+  if (nruns == 1 && !pending[cx_runid[0]]) VF_REACH();     /* ran and retired */
+  if (nruns == 0) VF_REACH();                              /* nothing due */
+  VF_ASSERT(nruns <= 1, "C31: one pass of the loop runs at most one callback");
+#endif
+#else
   if (nruns >= 2) VF_REACH();
+#endif
 #if CLEAR
   if (nruns >= 1 && cleared) VF_REACH();
 #endif
